@@ -96,6 +96,22 @@ def run(ck):
         ck.count("executed:%d" % min(len(xlog), 12))
         terms.append(c01.coq_case(True, labels, info, cls, xlog))
         metas.append((sp, res.get("choices"), labels, xlog))
+    # transient transmission failure of one request inside a burst of non-blocking calls (oracles only: the model knows
+    # connection loss, not a failing send on a connection that stays up)
+    fspecs = []
+    for nr, ncalls, k in ((1, 5, 0), (1, 5, 1), (1, 4, 2), (2, 4, 0), (2, 4, 3), (1, 6, 3)):
+        fspecs.append(dict(local=[], remote=[["ok"] * ncalls for _ in range(nr)], fault="none", nb=[True] * 4, burst=True,
+                           send_fault=k))
+    for sp, res in c01.run_specs(ck, fspecs, 4 if ck.tier == "quick" else 24):
+        ck.note_case((repr(sp), tuple(res.get("choices") or ())), True)
+        ck.count("send-fault:%s" % res["status"])
+        bad = oracle(sp, res)
+        if not bad and res["status"] != "ok":
+            bad = ("status", "scenario ended with %s %s" % (res["status"], str(res.get("trace") or "")[:200]))
+        if bad:
+            ck.report("oracle:send-fault:%s" % bad[0], "C03 fails on the implementation (one transmission of a request fails "
+                      "with ENOBUFS inside a burst of non-blocking calls): %s" % bad[1],
+                      {"spec": sp, "schedule": res.get("choices"), "status": res["status"]})
     for m in metas[:1] + metas[-2:]:
         ck.sample({"spec": m[0], "execution_order": m[3], "n_labels": len(m[2])}, 3)
     bad = ck.run_model("C03.Corr", "check_case", terms, "case", shard=50)
